@@ -147,7 +147,10 @@ def syncAccess (e : Entry) (a : Access) : Bool :=
 
 /-- the machine-checked side condition of each class -/
 def sideCondition (e : Entry) : Class → Bool
-  | .ResetByTrialInit => e.isThreadLocal && trialInit.any (e.resetBy.contains ·)
+  | .ResetByTrialInit =>
+    -- some per-trial initialisation call assigns it on every path (no early return before the assignment) without looking at
+    -- the old value first
+    e.isThreadLocal && trialInit.any (fun f => e.resetBy.contains f && !e.readFirstBy.contains f)
   | .PureMemo => e.isThreadLocal && e.function != "" && e.accesses.all (fun a => a.kind.isPlain && a.fn == e.function)
   | .Scratch => e.isThreadLocal && e.function != "" && e.accesses.all (·.fn == e.function)
   | .AddressOnly => e.isThreadLocal
